@@ -421,6 +421,17 @@ def r9_property_getters(chk, prog, rule='R9'):
             chk.check(bool(stores) and not off, rule, sf.name, '%s() stores true into the flag that %s() reports, on '
                       'every normal path' % (sname, g), sf.loc())
     chk.check(len(set(flags.values())) == len(flags), rule, T, 'the three properties are three flags', '', '%s' % flags)
+    # ... and independent of each other: a setter of one property writes no flag of another one (making an argument
+    # mandatory does not un-hide it), whatever the order in which the properties are set
+    owner = {v: k for k, v in flags.items()}
+    for g, setters in table.items():
+        for sname in setters:
+            sf = prog.one(T, sname)
+            foreign = sorted({field_name(children(x)[0]) for x in sf.walk() if x.get('k') == 'BinaryOperator' and
+                              x.get('op') == '=' and field_name(children(x)[0]) in owner and
+                              field_name(children(x)[0]) != flags.get(g)})
+            chk.check(not foreign, rule, sf.name, '%s() changes no other visibility property' % sname, sf.loc(),
+                      'it also writes %s (reported by %s())' % (foreign, ', '.join(owner[x] for x in foreign)))
 
 
 def r10_listing_data_is_configuration(chk, prog, rule='R10'):
